@@ -77,8 +77,21 @@ def const(v: Any) -> Num:
     if isinstance(v, int):
         return Num({"1": Fraction(v)}, "int", True)
     if isinstance(v, float):
-        return Num({"1": frac(v)}, "float", v == int(v) or True)
+        # the form carries the decimal the programmer wrote; err is how far
+        # the double that is actually used lies from it (1e9 is exact,
+        # 1e-9 and 1e-6 are not)
+        intent = Fraction(repr(v))
+        err = abs(Fraction(v) - intent)
+        return Num({"1": intent}, "float", err == 0, err)
     raise AnalysisError(f"constant {v!r} outside the vocabulary")
+
+
+def conv_err(n: "Num") -> Fraction:
+    """Error of an operand when it enters a float operation: an int above
+    2**53 is rounded on conversion."""
+    if n.typ == "int" and n.max_abs() >= 2 ** 53:
+        return ulp_at(n.max_abs()) / 2
+    return n.err
 
 
 def _float_exact(form: dict[str, Fraction]) -> bool:
@@ -296,24 +309,24 @@ class TimeInterp:
             if any(c.denominator != 1 for c in form.values()):
                 raise AnalysisError("int form with fractional coefficient")
             return Num(form, "int", True)
-        exact = a.exact and b.exact and _float_exact(form)
-        err = Fraction(0)
-        if not exact:
-            scale = Fraction(1)
-            # error propagated through multiplication by a constant
-            if isinstance(e, ast.BinOp) and isinstance(e.op, (ast.Mult,)):
-                k = a if a.is_const() else b
-                scale = abs(k.coef("1"))
-                err = (a.err + b.err) * scale
-            elif isinstance(e, ast.BinOp) and isinstance(e.op, ast.Div):
-                err = a.err / abs(b.coef("1")) if b.coef("1") else a.err
-            else:
-                err = a.err + b.err
-            err += ulp_at(Num(form).max_abs()) / 2
-            self.trace.append(
-                f"{unparse(e)} : float, may differ from "
-                f"{Num(form).show()} by up to {float(err):.3g}")
-        return Num(form, "float", exact, err)
+        ea, eb = conv_err(a), conv_err(b)
+        op = e.op if isinstance(e, ast.BinOp) else None
+        if isinstance(op, ast.Mult):
+            k, v, ek, ev = (a, b, ea, eb) if a.is_const() else (b, a, eb, ea)
+            err = ev * abs(k.coef("1")) + ek * v.max_abs()
+        elif isinstance(op, ast.Div):
+            d = abs(b.coef("1"))
+            err = ea / d + (eb * a.max_abs() / (d * d) if d else 0)
+        else:
+            err = ea + eb
+        res = Num(form)
+        if err == 0 and _float_exact(form):
+            return Num(form, "float", True, Fraction(0))
+        err += ulp_at(res.max_abs()) / 2          # rounding of this operation
+        self.trace.append(
+            f"{unparse(e)} : double, may differ from {res.show()} by up to "
+            f"{float(err):.3g}")
+        return Num(form, "float", False, err)
 
     def _dt_plus(self, d: DT, delta: Delta) -> DT:
         total = {k: d.micro.coef(k) + delta.micro.coef(k)
@@ -522,7 +535,9 @@ class TimeInterp:
                 form[k] = form.get(k, Fraction(0)) + c / 10**6
             form = {k: c for k, c in form.items() if c}
             exact = _float_exact(form)
-            err = Fraction(0) if exact else ulp_at(Num(form).max_abs()) / 2
+            # datetime.timestamp() of an aware datetime is computed from a
+            # timedelta: whole seconds + microseconds / 1e6, two roundings
+            err = Fraction(0) if exact else ulp_at(Num(form).max_abs())
             return Num(form, "float", exact, err)
         if m in ("timetuple", "utctimetuple") and not e.args:
             return Const(("timetuple", d.sec))
